@@ -1,7 +1,7 @@
 """C17 — concurrent encoder / decoder instances in one process each produce their solo output."""
 import hashlib, os, shutil
 from hypothesis import strategies as st
-from props.common import svt, gens, summarize_cfg, first_difference, run_status
+from props.common import svt, gens, summarize_cfg, first_difference, run_status, diff_region
 
 ID = "C17"
 LEVEL = "exploration"
@@ -169,7 +169,7 @@ def run_case(case, tier):
                                 dim.append("bitdepth")
                             if oc.get("use_cpu_flags") != me.get("use_cpu_flags"):
                                 dim.append("cpuflags")
-                        viol.append(dict(key="C17|output-differs|enc|" + gdims, what="encoder instance %d: %s" % (i, d)))
+                        viol.append(dict(key="C17|output-differs|enc|" + gdims + ("|eos-tail" if diff_region(d, s, me.get("hierarchical_levels", 4)) == "eos-tail" else ""), what="encoder instance %d: %s" % (i, d)))
                     else:
                         done += 1
         encs = [x["case"]["cfg"] for x in case["insts"] if x["kind"] == "enc"]
